@@ -24,9 +24,24 @@ import (
 )
 
 func c08Content(rt *rapid.T, n int) ([]byte, string) {
-	class := rapid.IntRange(0, 5).Draw(rt, "class")
+	class := rapid.IntRange(0, 7).Draw(rt, "class")
 	seed := rapid.Uint64().Draw(rt, "seed")
 	switch class {
+	case 6: // incompressible, then a short compressible tail: a match is being emitted when the output is about as long as the input
+		tail := rapid.SampledFrom([]int{5, 12, 13, 16, 32, 64, 200, 1000}).Draw(rt, "tail")
+		if tail > n {
+			tail = n
+		}
+		return append(gen.Expand(3, seed, n-tail), gen.Expand(rapid.IntRange(0, 1).Draw(rt, "tailClass"), seed, tail)...), "random+run"
+	case 7: // short runs scattered through incompressible data
+		b := gen.Expand(3, seed, n)
+		for k, at := 0, 0; k < 8 && n > 64; k++ {
+			at = (at + int(seed>>uint(8*k)&0xffff)) % (n - 32)
+			for j := 0; j < 24; j++ {
+				b[at+j] = b[at]
+			}
+		}
+		return b, "random-with-runs"
 	case 4:
 		return append(gen.Expand(0, seed, n/2), gen.Expand(3, seed, n-n/2)...), "half-half"
 	case 5: // one long run + short random tail: ratios up to ~250:1
